@@ -201,7 +201,7 @@ where
 }
 
 /// Weighted observation for AdjacencyListWeighted.
-pub fn observe_w<W>(
+pub fn observe_w<W: Copy + Default + Ord + std::hash::Hash + std::fmt::Debug + Send + Sync + 'static>(
     d: &graaf::AdjacencyListWeighted<W>,
     m: &Model,
     o: &mut CaseOut,
